@@ -1439,14 +1439,15 @@ class InlineCode(Statement):
                     elif isinstance(node, _InlineCode.SubCode):
                         for option in node.options:
                             assert isinstance(option, _InlineCode)
-                            visit_nodes(option.content)
+                            option.content = visit_nodes(option.content)
+                        updated.append(node)
                     else:
                         raise AssertionError("invalid content")
 
                 return updated
 
             for option in self.options:
-                visit_nodes(option.content)
+                option.content = visit_nodes(option.content)
 
             if self.result is not None:
                 self.result = operation(self.result, AccessFlags.WRITE)
